@@ -22,7 +22,7 @@ def sh(cmd, cwd=wt, timeout=900, env=env):
     return r.returncode, (r.stdout + r.stderr)
 
 
-sh("git checkout -- . && git clean -fdq")
+sh("git checkout -- . && git clean -fdq && git checkout -q --detach main")
 import shutil
 shutil.rmtree(os.path.join(wt, "out"), ignore_errors=True)
 shutil.copytree(os.path.join(src, "out"), os.path.join(wt, "out"))
@@ -64,5 +64,5 @@ if rc == 0:
         viol = [l for l in o.splitlines() if l.startswith("VIOLATION")]
         detail = [l.strip() for l in o.splitlines() if l.startswith("   ")][:2]
         out["checks"][p] = {"rc": rc, "violation": viol[:1], "detail": detail, "wall": round(time.time() - t, 1)}
-sh("git checkout -- . && git clean -fdq")
+sh("git checkout -- . && git clean -fdq && git checkout -q --detach main")
 print(json.dumps(out, indent=1))
